@@ -466,6 +466,30 @@ pub fn run_prog_case(case: &ProgCase, progress: bool) -> ProgOutcome {
     out.stats = res.stats;
     out.leaked = res.leaked_cond_marker;
     out.violation = res.found;
+    if out.violation.is_none() && out.leaked.is_none() {
+        // The statement at the level of what the caller sees ("Captures of atomic/look-around
+        // patterns"): a negative look-around ends either by its body failing (every alternative
+        // of the body abandoned) or by its failure being committed (a backtrack follows); in both
+        // cases every capture position written inside it reverts. So a group that lies inside a
+        // negative look-around is unset in whatever the search returns.
+        if let (Ok(Ok(Some(groups))), Some(inside)) = (&r, neg_look_groups(&case.pattern)) {
+            if !inside.is_empty() {
+                out.stats.neglook_group_checks += 1;
+            }
+            for g in inside {
+                if let Some(Some(span)) = groups.get(g) {
+                    out.violation = Some((
+                        "neglook-capture-survives".to_string(),
+                        format!(
+                            "group {} lies inside a negative look-around of /{}/ and is reported as {:?} on {:?} from {}: capture positions written inside a negative look-around must have reverted when it ended",
+                            g, case.pattern, span, case.text, case.pos
+                        ),
+                    ));
+                    break;
+                }
+            }
+        }
+    }
     if out.violation.is_none() {
         if let Err(p) = r {
             let msg = panic_message(p);
@@ -478,6 +502,79 @@ pub fn run_prog_case(case: &ProgCase, progress: bool) -> ProgOutcome {
         }
     }
     out
+}
+
+/// Numbers of the capture groups that lie inside a negative look-around, from the pattern text
+/// (None when the scanner meets syntax it does not know: the check is skipped then).
+pub fn neg_look_groups(pattern: &str) -> Option<Vec<usize>> {
+    let b: Vec<char> = pattern.chars().collect();
+    let mut i = 0;
+    let mut open: Vec<bool> = Vec::new(); // per open parenthesis: is it a negative look-around
+    let mut group = 0;
+    let mut out = Vec::new();
+    while i < b.len() {
+        match b[i] {
+            '\\' => i += 2,
+            '[' => {
+                // character class: up to the matching ']' (nested classes and escapes skipped)
+                let mut depth = 1;
+                i += 1;
+                if b.get(i) == Some(&'^') {
+                    i += 1;
+                }
+                if b.get(i) == Some(&']') {
+                    i += 1;
+                }
+                while i < b.len() && depth > 0 {
+                    match b[i] {
+                        '\\' => i += 1,
+                        '[' => depth += 1,
+                        ']' => depth -= 1,
+                        _ => {}
+                    }
+                    i += 1;
+                }
+                if depth != 0 {
+                    return None;
+                }
+            }
+            '(' => {
+                let rest: String = b[i + 1..b.len().min(i + 4)].iter().collect();
+                if rest.starts_with("?(") {
+                    // conditional: its own parenthesis and the one around the condition
+                    open.push(false);
+                    open.push(false);
+                    i += 3;
+                    continue;
+                }
+                let neg = rest.starts_with("?!") || rest.starts_with("?<!");
+                let capturing = if !rest.starts_with('?') {
+                    true
+                } else if rest.starts_with("?<=") || rest.starts_with("?<!") {
+                    false
+                } else {
+                    rest.starts_with("?<") || rest.starts_with("?P<")
+                };
+                if capturing {
+                    group += 1;
+                    if open.iter().any(|n| *n) {
+                        out.push(group);
+                    }
+                }
+                open.push(neg);
+                i += 1;
+            }
+            ')' => {
+                open.pop()?;
+                i += 1;
+            }
+            _ => i += 1,
+        }
+    }
+    if !open.is_empty() {
+        return None;
+    }
+    Some(out)
 }
 
 fn gen_cfg_for_c20(rng: &mut Rng) -> GenCfg {
@@ -530,6 +627,7 @@ fn add_shadow(a: &mut ShadowStats, b: &ShadowStats) {
     a.rollback_after_cut += b.rollback_after_cut;
     a.atomic_commits_checked += b.atomic_commits_checked;
     a.neglook_unwinds_checked += b.neglook_unwinds_checked;
+    a.neglook_group_checks += b.neglook_group_checks;
     a.epsilon_guard_fired += b.epsilon_guard_fired;
     a.max_depth = a.max_depth.max(b.max_depth);
     a.max_aux = a.max_aux.max(b.max_aux);
@@ -574,7 +672,16 @@ fn job(seed: u64, i: u64, thorough: bool, leak_listed: bool) -> (JobOut, Option<
             (gen::CORPUS[(i as usize) % gen::CORPUS.len()].to_string(), None)
         } else {
             let ast = gen::gen_pattern(&mut rng, &cfg);
-            (ast.render(), Some(ast))
+            let pattern = ast.render();
+            // harness self-check: the text scanner behind the negative-look-around capture rule
+            // must agree with the generator's own knowledge of the pattern it produced
+            if let Some(scanned) = neg_look_groups(&pattern) {
+                let known = ast.facts().neg_look_groups;
+                if scanned != known {
+                    panic!("harness error: neg_look_groups(/{}/) = {:?}, the generator says {:?}", pattern, scanned, known);
+                }
+            }
+            (pattern, Some(ast))
         };
         for _ in 0..4 {
             let text = gen::gen_text(&mut rng, 8);
@@ -644,8 +751,9 @@ fn check_prog_outcome(case: &ProgCase, o: &ProgOutcome, leak_listed: bool) -> Op
         return Some(Violation::new(PROP, class, detail.clone(), min.to_json()));
     }
     if let Some(d) = &o.leaked {
-        if leak_listed {
-            // the listed finding, recognised by its call-site signature
+        if leak_listed && case.pattern.contains("(?(") {
+            // the listed finding, recognised by its call-site signature (the shape
+            // compile_conditional emits, in a pattern that has a conditional at all)
             return None;
         }
         // not (or no longer) listed as an open finding: report it
@@ -886,6 +994,7 @@ pub fn run(opts: &Opts) -> i32 {
             "vm_rollback_after_commit_changing_slots": agg.shadow.rollback_after_cut,
             "atomic_commits_bracket_checked": agg.shadow.atomic_commits_checked,
             "negative_lookaround_unwinds_checked": agg.shadow.neglook_unwinds_checked,
+            "results_checked_for_captures_surviving_a_negative_lookaround": agg.shadow.neglook_group_checks,
             "vm_max_branch_depth": agg.shadow.max_depth,
             "vm_max_aux_depth": agg.shadow.max_aux,
             "vm_runs_where_model_was_capped_by_depth": agg.shadow.model_capped,
